@@ -13,6 +13,8 @@ A world (see verif/gen/c16_worlds.py for the generator and the on-disk realisati
               backend : None | {'kind': 'local'|'kubernetes'|'lsf'|'docker', 'image': str|None}
     gvars/svars : global / per stage variables
     files   : {package relative path: content}      ext: {path under the external directory: content}
+              (a content is a str or a compact spec of a long text, see expand_content; 'bin/..' files are scripts)
+    environments : {name: {variable: value}} (constant, never varied) and comp['env'] = name
     outputs : {component name: {relative path: content}}  files "produced" by components
     remove  : ['data/x' | 'EXT/x' | '<comp>/<path>'] files deleted after the instance was created (missing inputs)
 
@@ -113,7 +115,22 @@ def file_of_ref(world, ref):
     return ('file', _bytes(outs[k]))
 
 
+def expand_content(v):
+    """A content is a str, or a compact spec {'size': N, 'flip': [positions]} of a long text: a fixed 32-byte line
+    pattern of N bytes in which the bytes at the given positions are changed."""
+    if not isinstance(v, dict):
+        return v
+    line = '0123456789abcdef0123456789abcde\n'
+    n = v['size']
+    chars = bytearray((line * (n // len(line) + 1))[:n].encode('ascii'))
+    for pos in v.get('flip') or []:
+        pos = pos if pos >= 0 else n + pos
+        chars[pos] = ord('X') if chars[pos] != ord('X') else ord('Y')
+    return chars.decode('ascii')
+
+
 def _bytes(v):
+    v = expand_content(v)
     return v.encode('utf-8') if isinstance(v, str) else v
 
 
